@@ -369,6 +369,10 @@ func c08(c *Ctx) {
 		}
 	}
 
+	// "Rolling the tree back to a smaller size and re-appending, restarting ... do not change any of this": ResetSize
+	// lowers the in-memory sizes and the next Append rewinds pLog, dLog and cLog with SetOffset; the size found at the next Open is the physical size of the commit
+	// log, so the rollback survives a restart only if an appendable rewind is persistent (it is not: known finding)
+	c17RewindPersistent(c, "C08.3/rollback-is-persistent")
 	r = "C08.3/rollback-hygiene"
 	if f := c.mustFn(r, ahT+"ResetSize"); f != nil {
 		for _, sz := range []string{"cLogSize", "pLogSize", "dLogSize"} {
